@@ -117,6 +117,45 @@ func (c *c02Case) viaWire() {
 	}
 }
 
+// certLibraryDefect: is the rejection of this (ground-truth valid) certificate explained by the pairing library defect?
+func (w *World) certLibraryDefect(c *c02Case) bool {
+	switch c.Typ {
+	case "QC":
+		b, ok := w.Blocks.Get(c.QC.BlockHash())
+		if !ok || c.QC.Signature() == nil {
+			return false
+		}
+		return w.LibraryDefect(c.QC.Signature(), func(hotstuff.ID) []byte { return b.ToBytes() })
+	case "TC":
+		if c.TC.Signature() == nil {
+			return false
+		}
+		return w.LibraryDefect(c.TC.Signature(), func(hotstuff.ID) []byte { return c.TC.View().ToBytes() })
+	default:
+		if c.Agg.Sig() == nil {
+			return false
+		}
+		if w.LibraryDefect(c.Agg.Sig(), func(id hotstuff.ID) []byte {
+			qc, ok := c.Agg.QCs()[id]
+			if !ok {
+				return nil
+			}
+			return hotstuff.TimeoutMsg{ID: id, View: c.Agg.View(), SyncInfo: hotstuff.NewSyncInfoWith(qc)}.ToBytes()
+		}) {
+			return true
+		}
+		// or one of the attested QCs is rejected by the library
+		for _, qc := range c.Agg.QCs() {
+			if b, ok := w.Blocks.Get(qc.BlockHash()); ok && qc.Signature() != nil {
+				if w.LibraryDefect(qc.Signature(), func(hotstuff.ID) []byte { return b.ToBytes() }) {
+					return true
+				}
+			}
+		}
+		return false
+	}
+}
+
 func c02Certs(p vbase.Params, r *vbase.Result) {
 	r.Rule = "for scheme x cache{0,1,3,100} x n=1..13: honest QC/TC/AggQC from random quorums (completeness at EVERY replica, n>=2) and every structural mutation class (repeated signer, sub-quorum, padded sub-quorum, " +
 		"unknown signer, swapped ids, foreign-message signatures, relabelled view/hash, genesis hash with view!=0, empty/absent signature, random/truncated bytes, BLS bit-field extra/missing bits and trailing zeros, " +
@@ -257,7 +296,10 @@ func c02Cell(p vbase.Params, r *vbase.Result, scheme string, cache uint, n, repI
 				}
 			case MustAccept:
 				r.Obs("oracle_must_accept", 1)
-				if !accepted && (n >= 2 || !honestMade) {
+				if !accepted && w.certLibraryDefect(&c) {
+					// the pinned pairing library's multi-pairing defect (see blsref.go), not the repository's logic
+					r.Violate("bls-library-rejects-valid-signature", fmt.Sprintf("honest %s (%s) rejected at replica %d: %v - the equation holds with separate pairings but the pairing library's product check fails for this input (scheme bls12, n=%d)", c.Typ, c.Class, m.ID, err, n), rp)
+				} else if !accepted && (n >= 2 || !honestMade) {
 					r.Violate(vbase.Sig("cert-complete", "type", c.Typ, "class", c.Class, "scheme", scheme, "cache", cacheTag),
 						fmt.Sprintf("honest %s (%s) rejected at replica %d: %v (scheme %s, cache %d, n=%d)", c.Typ, c.Class, m.ID, err, scheme, cache, n), rp)
 				}
